@@ -74,6 +74,12 @@ def gen_cfgs(rng, n):
             # a feed without rows yet (zero-row frame / header-only list of lists): too few units, the live results are still saved
             "feed": (["empty-frame", "header-only"][i % 2] if (not gate and (i % 5 == 0 or rng.random() < 0.3)) else "full"),
         })
+        c = cfgs[-1]
+        if i % 7 == 3:
+            c["app_env"] = None          # APP_ENV not set at all: not the local environment
+        # a storage service that does not acknowledge one put (single-call configurations that write remotely)
+        if len(calls) == 1 and i % 4 in (1, 2) and c["app_env"] != "local" and "results" in (so if so is not None else ["results"]):
+            c["nack_put"] = rng.choice([0, 1, 2, 3]) if gate else rng.choice([0, 1])
     return cfgs
 
 
@@ -102,7 +108,7 @@ def explore(run, driver, budget):
     for cfg, out in zip(cfgs, outs):
         case = {k: v for k, v in cfg.items() if k not in ("verif", "src")}
         run.case(case, any(c["save_output"] for c in cfg["calls"]))
-        run.count("env " + cfg["app_env"])
+        run.count("env " + str(cfg["app_env"] or "APP_ENV not set"))
         run.count(cfg["pi"])
         run.count("feed " + cfg.get("feed", "full"))
         run.count("baseline " + ("read from remote storage" if cfg.get("pre_from_s3") else "passed in memory"))
@@ -117,6 +123,10 @@ def explore(run, driver, budget):
                 per_call.append(cur)
             else:
                 cur.append(p)
+        if cfg.get("nack_put") is not None:
+            run.count("storage fault injected")
+            fault_case(run, driver, cfg, out, case, default)
+            continue
         gate_pass = out["outcome"] == "completed"
         if out["outcome"] not in ("completed", "ModelNotEnoughSubunitsException"):
             run.violation("run ended with " + out["outcome"], input=case, impl=out["outcome"], predicate="effects",
@@ -171,6 +181,31 @@ def explore(run, driver, budget):
             if set(out["files"]) != all_local:
                 run.violation("local files created differ from what 'data' / 'config' name", input=case, impl=out["files"],
                               expected=sorted(all_local), predicate="data_config_local_only", signature="C18:local")
+
+
+def fault_case(run, driver, cfg, out, case, default):
+    """one put of the call was not acknowledged by the storage service"""
+    puts = [p for p in out["puts"] if "marker" not in p]
+    nacked = [p["key"] for p in puts if not p.get("ack", True)]
+    call = cfg["calls"][0]
+    # the property: a run that returns its tables, or ends in the too-few-units error, has saved what it owes
+    if nacked and out["outcome"] in ("completed", "ModelNotEnoughSubunitsException"):
+        run.violation("the run ended with " + out["outcome"] + " although the storage service did not acknowledge a put: the object was "
+                      "never saved", input=case, impl={"outcome": out["outcome"], "not_saved": nacked, "puts": [p["key"] for p in puts]},
+                      predicate="ends_normally_all_stored / not_enough_still_saved", signature="C18:unacknowledged")
+        return
+    if driver is None:
+        return
+    # the gate outcome of this election, from its twin without the fault: n_reporting decides
+    gate_pass = cfg["n_reporting"] >= 20 and cfg.get("feed", "full") == "full"
+    op = model_ops(cfg, out, call, default)
+    op.update({"op": "persist.fault", "gate_pass": gate_pass, "nack": cfg["nack_put"]})
+    m = driver.run([op])[0]
+    got = {"attempted": [p["key"] for p in puts], "stored": [p["key"] for p in puts if p.get("ack", True)], "outcome": out["outcome"]}
+    want = {"attempted": [e["put"] for e in m["attempted"]], "stored": [e["put"] for e in m["stored"]], "outcome": m["outcome"]}
+    if got != want:
+        run.diff("a put that is not acknowledged: attempted / stored keys and outcome, model vs implementation", input=case, impl=got, model=want)
+    run.traces += 1
 
 
 def replay(run, driver, payload):
